@@ -41,7 +41,8 @@ RULE = ('cases from one PRNG: (a) 50% select_edfa on a generated library of 1-12
         'two-ROADM topologies designed by designed_network (auto-inserted and explicit amplifiers, ROADM and amplifier '
         'restrictions, fibre loss around the Raman limit, narrow SI bands); (d) 8% preselect_multiband_amps. '
         'Non-trivial: (a) >= 2 permitted models, (b) library of >= 2, (c)/(d) at least one amplifier auto-selected, (e) '
-        'always; distinct = distinct canonical JSON. Generator restriction: two multiband entries never list the same '
+        'always; thorough tier adds the exhaustive enumeration of 384 restriction-source combinations (position x user '
+        'type x own list x booster list x preamp list x band); distinct = distinct canonical JSON. Generator restriction: two multiband entries never list the same '
         'member set (such a library is ambiguous: find_type_variety cannot tell the twins apart and takes a '
         'hash-order dependent one)')
 MODEL_SCOPE = ('modelled: select_edfa, filter_edfa_list_based_on_targets, edfa_nf (through the C04 NF model), '
